@@ -358,6 +358,18 @@ def read_points_txt(path):
     return lines
 
 
+def _rows(path, dtype, width):
+    """ the rows of a raw array file under the DECLARED width; a file whose size does not fit it is reported as such (that
+    is an output of the code under test, not a harness failure) """
+    try:
+        arr = np.fromfile(path, dtype=dtype)
+    except OSError as e:
+        return ['UNREADABLE', type(e).__name__]
+    if width <= 0 or arr.size % width:
+        return ['UNREADABLE', f'{arr.size} items do not fit rows of {width}']
+    return arr.reshape((-1, width)).tolist()
+
+
 def collect(k2, root, case):
     """ the imported dataset by image name """
     import kapture
@@ -378,12 +390,12 @@ def collect(k2, root, case):
         out['keypoints'] = {}
         for t, kps in k2.keypoints.items():
             out['keypoints'][t] = {'dtype': kgen.dtype_name(kps.dtype), 'dsize': kps.dsize, 'data': {
-                n: np.fromfile(kf.get_keypoints_fullpath(t, root, n), dtype='<u4').reshape((-1, kps.dsize)).tolist() for n in kps}}
+                n: _rows(kf.get_keypoints_fullpath(t, root, n), '<u4', kps.dsize) for n in kps}}
     if k2.descriptors:
         out['descriptors'] = {}
         for t, ds in k2.descriptors.items():
             out['descriptors'][t] = {'dtype': kgen.dtype_name(ds.dtype), 'dsize': ds.dsize, 'data': {
-                n: np.fromfile(kf.get_descriptors_fullpath(t, root, n), dtype=np.uint8).reshape((-1, ds.dsize)).tolist() for n in ds}}
+                n: _rows(kf.get_descriptors_fullpath(t, root, n), np.uint8, ds.dsize) for n in ds}}
     if k2.matches:
         out['matches'] = {}
         for t, ms in k2.matches.items():
